@@ -18,6 +18,9 @@ extern "C" void verif_harness() {
   // moderate magnitudes and a clearly non-negligible coupling: the kernels treat an off-diagonal entry below 2^-52 times the neighbouring diagonal as zero
   // (a relative-epsilon decision; the exact equations below are claimed away from that regime)
   for (int i = 0; i < n; i++) for (int j = 0; j < n; j++) { double x = (*A)(i, j); SYM_ASSUME(x >= -100 && x <= 100); if (i != j && which != 2 && which != 4 && which != 5 && !(which == 3 && ((*A)(i, j) == 0))) SYM_ASSUME(x > 0.001 || x < -0.001); }
+#ifdef MATFUN
+  if (which == 1 || (which == 3 && !((*A)(1, 0) == 0.0))) return;    // matrix functions: 1x1, diagonal and upper-triangular input (the symmetric and lower-triangular paths go through square roots; measured: no verdict)
+#endif
   EigenValue<double> ev(*A);
   const RowMatrix<double>& V = ev.getV(); const RowMatrix<double>& D = ev.getD();
   vector<double> re = ev.getRealEigenValues(), im = ev.getImagEigenValues();
@@ -31,6 +34,32 @@ extern "C" void verif_harness() {
   double tr = 0, sr = 0; for (int i = 0; i < n; i++) { tr += (*A)(i, i); sr += re[i]; SYM_ASSERT(im[i] == 0.0, "a real spectrum is reported with an imaginary part"); SYM_ASSERT_EQ(D(i, i), re[i], "real eigenvalue list is not the diagonal of D"); }
   SYM_ASSERT_EQ(tr, sr, "trace is not the sum of the eigenvalues");
   if (n == 2) { double det = (*A)(0, 0) * (*A)(1, 1) - (*A)(0, 1) * (*A)(1, 0); SYM_ASSERT_EQ(det, re[0] * re[1], "determinant is not the product of the eigenvalues"); SYM_ASSERT(D(0, 1) == 0.0 && D(1, 0) == 0.0, "D is not diagonal for a real spectrum"); }
+#ifdef MATFUN
+  if (which <= 3) {
+    // real matrix power and matrix exponential built on the decomposition (diagonalisable input with real spectrum)
+    RowMatrix<double> AA, AAA, O; MatrixTools::mult(*A, *A, AA); MatrixTools::mult(AA, *A, AAA);
+    int p = __sym_choose("power", -1, 3); if (p == 0) p = -2;
+    double det = n == 1 ? (*A)(0, 0) : (*A)(0, 0) * (*A)(1, 1) - (*A)(0, 1) * (*A)(1, 0); if (p < 0) SYM_ASSUME(det > 0.001 || det < -0.001);
+    // nearly parallel eigenvectors make the inversion of V report singularity (ZeroDivisionException below its 1e-6 pivot threshold): accepted, nothing is returned then
+    try { MatrixTools::pow(*A, (double)p, O); } catch (ZeroDivisionException&) { return; }
+    SYM_ASSERT((int)O.getNumberOfRows() == n && (int)O.getNumberOfColumns() == n, "real matrix power has the wrong dimensions");
+    for (int i = 0; i < n; i++) for (int j = 0; j < n; j++) {
+      if (p == 1) SYM_ASSERT_EQ(O(i, j), (*A)(i, j), "pow(A, 1.0) differs from A");
+      else if (p == 2) SYM_ASSERT_EQ(O(i, j), AA(i, j), "pow(A, 2.0) differs from A.A");
+      else if (p == 3) SYM_ASSERT_EQ(O(i, j), AAA(i, j), "pow(A, 3.0) differs from A.A.A");
+      else { const RowMatrix<double>& B = p == -1 ? static_cast<const RowMatrix<double>&>(RowMatrix<double>(*A)) : AA; double s = 0; RowMatrix<double> Bc = p == -1 ? RowMatrix<double>(*A) : AA; (void)B; for (int k = 0; k < n; k++) s += Bc(i, k) * O(k, j); SYM_ASSERT_EQ(s, i == j ? 1.0 : 0.0, "pow(A, -1.0 / -2.0) is not the inverse of A / A.A"); } }
+    RowMatrix<double> X; try { MatrixTools::exp(*A, X); } catch (ZeroDivisionException&) { return; }
+    SYM_ASSERT((int)X.getNumberOfRows() == n && (int)X.getNumberOfColumns() == n, "matrix exponential has the wrong dimensions");
+    if (which == 0) SYM_ASSERT_EQ(X(0, 0), exp((*A)(0, 0)), "exp of a 1x1 matrix is not exp of its entry");
+    else if (which == 2) { SYM_ASSERT_EQ(X(0, 0), exp((*A)(0, 0)), "exp of a diagonal matrix: wrong diagonal entry"); SYM_ASSERT_EQ(X(1, 1), exp((*A)(1, 1)), "exp of a diagonal matrix: wrong diagonal entry"); SYM_ASSERT(X(0, 1) == 0.0 && X(1, 0) == 0.0, "exp of a diagonal matrix is not diagonal"); }
+    else if (which == 3) { double a = (*A)(0, 0), c = (*A)(1, 1), b = (*A)(0, 1) + (*A)(1, 0);    // triangular with distinct eigenvalues: the power series sums to b (e^a - e^c)/(a - c) off the diagonal
+      SYM_ASSERT_EQ(X(0, 0), exp(a), "exp of a triangular matrix: wrong diagonal entry"); SYM_ASSERT_EQ(X(1, 1), exp(c), "exp of a triangular matrix: wrong diagonal entry");
+      SYM_ASSERT_EQ(X(0, 1) + X(1, 0), b * (exp(a) - exp(c)) / (a - c), "exp of a triangular matrix: off-diagonal entry differs from the sum of the power series"); SYM_ASSERT(((*A)(0, 1) == 0.0 ? X(0, 1) : X(1, 0)) == 0.0, "exp of a triangular matrix is not triangular"); }
+    // spectral mapping with the (separately checked) eigenpairs, and commutation with A
+    for (int i = 0; i < n; i++) for (int j = 0; j < n; j++) { double xv = 0, ve = 0, ax = 0, xa = 0; for (int k = 0; k < n; k++) { xv += X(i, k) * V(k, j); ax += (*A)(i, k) * X(k, j); xa += X(i, k) * (*A)(k, j); } ve = V(i, j) * exp(re[j]);
+      SYM_ASSERT_EQ(xv, ve, "exp(A).V differs from V.exp(D)"); SYM_ASSERT_EQ(ax, xa, "exp(A) does not commute with A"); }
+  }
+#endif
   if ((which <= 2 || which == 4) && n >= 2) { for (int i = 1; i < n; i++) SYM_ASSERT(re[i - 1] <= re[i], "symmetric input: eigenvalues are not ascending");
     for (int i = 0; i < n; i++) for (int j = 0; j < n; j++) { double s = 0; for (int k = 0; k < n; k++) s += V(k, i) * V(k, j); SYM_ASSERT_EQ(s, i == j ? 1.0 : 0.0, "symmetric input: V is not orthonormal"); } }
 }
